@@ -10,7 +10,9 @@ package main
 
 import (
 	"bytes"
+	"compress/gzip"
 	"encoding/base64"
+	"encoding/binary"
 	"encoding/hex"
 	"encoding/json"
 	"fmt"
@@ -155,8 +157,12 @@ func (b *schemaBackend) ServeHTTP(w http.ResponseWriter, r *http.Request) {
 	// the byte order of fields in the proto encoding is not defined (dynamic messages write them in
 	// another order than generated ones): compare the message, i.e. its canonical re-encoding
 	body = canonProto(r.URL.Path, body)
+	flag := ""
+	if r.Method == http.MethodGet && len(r.URL.Path)+1+len(r.URL.RawQuery) > schemaMaxGetURL {
+		flag = " GET-URL-OVER-LIMIT"
+	}
 	b.mu.Lock()
-	b.seen = append(b.seen, fmt.Sprintf("%s %s %s ct=%s %s", r.Method, r.URL.Path, query, r.Header.Get("Content-Type"), hex.EncodeToString(body)))
+	b.seen = append(b.seen, fmt.Sprintf("%s %s %s ct=%s %s%s", r.Method, r.URL.Path, query, r.Header.Get("Content-Type"), hex.EncodeToString(body), flag))
 	resp := b.resp[r.URL.Path]
 	errBody := b.errBody
 	b.mu.Unlock()
@@ -197,10 +203,14 @@ func canonProto(path string, data []byte) []byte {
 	return out
 }
 
+// schemaMaxGetURL: the longest URL the Connect backend may be sent with GET.
+const schemaMaxGetURL = 300
+
 var schemaSvcNames = []string{veriftest.LibraryServiceName, veriftest.ContentServiceName}
 
 func buildSchemaTranscoder(route string, backend http.Handler, rules []*annotations.HttpRule) (*vanguard.Transcoder, error) {
-	opts := []vanguard.ServiceOption{vanguard.WithTargetProtocols(vanguard.ProtocolConnect), vanguard.WithTargetCodecs("proto"), vanguard.WithNoTargetCompression()}
+	opts := []vanguard.ServiceOption{vanguard.WithTargetProtocols(vanguard.ProtocolConnect), vanguard.WithTargetCodecs("proto"), vanguard.WithNoTargetCompression(),
+		vanguard.WithMaxGetURLBytes(schemaMaxGetURL)}
 	var svcs []*vanguard.Service
 	for _, name := range schemaSvcNames {
 		switch route {
@@ -288,7 +298,7 @@ func schemaAsConfig(extraRules []cfgRule, probes [][2]string) *cfgConfig {
 		}
 		c.Schema.Services = append(c.Schema.Services, cs)
 		c.Services = append(c.Services, cfgSvcReg{Svc: name, Opts: []cfgOpt{
-			{Kind: "protocols", Nums: []int{1}}, {Kind: "codecs", Names: []string{"proto"}}, {Kind: "compress", Names: []string{}}}})
+			{Kind: "protocols", Nums: []int{1}}, {Kind: "codecs", Names: []string{"proto"}}, {Kind: "compress", Names: []string{}}, {Kind: "maxGet", N: schemaMaxGetURL}}})
 	}
 	c.KnownCodecs, c.KnownCompressors = []string{"json", "proto"}, []string{"gzip"}
 	c.Rules = append(c.Rules, extraRules...)
@@ -325,6 +335,8 @@ type schemaReq struct {
 	RespFor string `json:"respFor"`
 	Resp    string `json:"resp"` // hex proto the backend answers with
 	ErrBody string `json:"errBody,omitempty"`
+	// GRPCMode (schema_rest_grpc): how the gRPC stub behaves
+	GRPCMode string `json:"grpcMode,omitempty"`
 }
 
 func runSchemaReq(t *vanguard.Transcoder, backend *schemaBackend, rq *schemaReq) string {
@@ -476,7 +488,127 @@ func init() {
 		}
 		return first
 	}
+	// schema_rest_grpc <req>: a REST client in front of a gRPC backend that announces gzip and answers
+	// with a message, an error in the headers, or an error after a message; the client's response
+	// must be valid for a REST client whatever the backend did
+	executors["schema_rest_grpc"] = func(a []string) string {
+		raw, err := hex.DecodeString(a[0])
+		if err != nil {
+			return "bad-op"
+		}
+		rq := &schemaReq{}
+		if err := json.Unmarshal(raw, rq); err != nil {
+			return "bad-op"
+		}
+		if schemaGRPC == nil {
+			b := &grpcStub{}
+			var svcs []*vanguard.Service
+			for _, name := range schemaSvcNames {
+				svcs = append(svcs, vanguard.NewService(name, b, vanguard.WithTargetProtocols(vanguard.ProtocolGRPC), vanguard.WithTargetCodecs("proto")))
+			}
+			t, err := vanguard.NewTranscoder(svcs)
+			if err != nil {
+				return "config-rejected"
+			}
+			schemaGRPC = &struct {
+				t *vanguard.Transcoder
+				b *grpcStub
+			}{t, b}
+		}
+		schemaGRPC.b.mode, schemaGRPC.b.resp = rq.GRPCMode, unhx(rq.Resp)
+		u, err := url.ParseRequestURI(rq.Target)
+		if err != nil {
+			return "bad-url"
+		}
+		req := httptest.NewRequest(rq.Method, "http://example.test/", bytes.NewReader(unhx(rq.Body)))
+		req.URL, req.RequestURI = u, rq.Target
+		if rq.CT != "" {
+			req.Header.Set("Content-Type", rq.CT)
+		}
+		req.Header.Set("Accept-Encoding", "gzip")
+		rec := httptest.NewRecorder()
+		schemaGRPC.t.ServeHTTP(rec, req)
+		res := rec.Result()
+		body := rec.Body.Bytes()
+		verdict := "valid"
+		if enc := res.Header.Get("Content-Encoding"); enc != "" && enc != "identity" {
+			zr, err := gzip.NewReader(bytes.NewReader(body))
+			if err != nil {
+				verdict = "BAD-RESPONSE:content-encoding-" + enc + "-but-body-is-not"
+			} else if plain, err := io.ReadAll(zr); err != nil {
+				verdict = "BAD-RESPONSE:content-encoding-" + enc + "-but-body-is-corrupt"
+			} else {
+				body = plain
+			}
+		}
+		if verdict == "valid" && strings.HasPrefix(res.Header.Get("Content-Type"), "application/json") && len(body) > 0 && !json.Valid(body) {
+			verdict = "BAD-RESPONSE:body-is-not-json"
+		}
+		if verdict == "valid" && res.StatusCode != 200 && strings.HasPrefix(res.Header.Get("Content-Type"), "application/json") {
+			var st struct {
+				Code *int `json:"code"`
+			}
+			if json.Unmarshal(body, &st) != nil || st.Code == nil {
+				verdict = "BAD-RESPONSE:error-without-status-body"
+			}
+		}
+		return fmt.Sprintf("status=%d mode=%s %s", res.StatusCode, rq.GRPCMode, verdict)
+	}
 	streams["schema"] = streamSchema
+}
+
+var schemaGRPC *struct {
+	t *vanguard.Transcoder
+	b *grpcStub
+}
+
+// grpcStub is a hand-written gRPC backend: it announces gzip and answers according to mode.
+type grpcStub struct {
+	mode string
+	resp []byte
+}
+
+func (g *grpcStub) ServeHTTP(w http.ResponseWriter, r *http.Request) {
+	_, _ = io.ReadAll(r.Body)
+	h := w.Header()
+	h.Set("Content-Type", "application/grpc+proto")
+	h.Set("Grpc-Encoding", "gzip")
+	frame := func(compress bool) []byte {
+		payload := g.resp
+		flag := byte(0)
+		if compress {
+			var zb bytes.Buffer
+			zw := gzip.NewWriter(&zb)
+			_, _ = zw.Write(payload)
+			_ = zw.Close()
+			payload, flag = zb.Bytes(), 1
+		}
+		out := []byte{flag, 0, 0, 0, 0}
+		binary.BigEndian.PutUint32(out[1:], uint32(len(payload)))
+		return append(out, payload...)
+	}
+	switch g.mode {
+	case "trailers-only-error":
+		h.Set("Grpc-Status", "5")
+		h.Set("Grpc-Message", "no such thing")
+		w.WriteHeader(200)
+	case "error-after-message":
+		h.Set("Trailer", "Grpc-Status, Grpc-Message")
+		w.WriteHeader(200)
+		_, _ = w.Write(frame(true))
+		h.Set("Grpc-Status", "13")
+		h.Set("Grpc-Message", "boom")
+	case "ok-uncompressed-frame":
+		h.Set("Trailer", "Grpc-Status")
+		w.WriteHeader(200)
+		_, _ = w.Write(frame(false))
+		h.Set("Grpc-Status", "0")
+	default: // ok
+		h.Set("Trailer", "Grpc-Status")
+		w.WriteHeader(200)
+		_, _ = w.Write(frame(true))
+		h.Set("Grpc-Status", "0")
+	}
 }
 
 // ---- generator ----
@@ -549,7 +681,11 @@ func streamSchema(e *Emitter, rng *rand.Rand, tier string) {
 	}
 	for i := 0; i < n; i++ {
 		rq := &schemaReq{}
-		switch rng.IntN(12) {
+		which := rng.IntN(14)
+		if which >= 12 {
+			which = 3 // (more GETs around the URL limit)
+		}
+		switch which {
 		case 0:
 			rq.Method, rq.Target, rq.RespFor, rq.Resp = "GET", "/v1/shelves/"+seg()+"/books/"+seg(), lib+"GetBook", hx(book())
 		case 1:
@@ -559,7 +695,12 @@ func streamSchema(e *Emitter, rng *rand.Rand, tier string) {
 			rq.Method, rq.Target, rq.CT, rq.Body = "PATCH", "/v1/shelves/"+seg()+"/books/"+seg()+"?update_mask="+pick(rng, []string{"title", "title,author", "book.title", ""}), "application/json", hx([]byte(jsonBook()))
 			rq.RespFor, rq.Resp = lib+"UpdateBook", hx(book())
 		case 3:
-			rq.Method, rq.Target = "GET", "/v2/shelves/"+seg()+"/books:search?query="+seg()+"&page_size="+pick(rng, []string{"5", "0", "-1", "abc", "2147483648", "1e3"})
+			q := seg()
+			if rng.IntN(2) == 0 {
+				// a query that brings the backend's GET URL close to the configured maximum
+				q = strings.Repeat("q", 120+rng.IntN(50))
+			}
+			rq.Method, rq.Target = "GET", "/v2/shelves/"+seg()+"/books:search?query="+q+"&page_size="+pick(rng, []string{"5", "0", "-1", "abc", "2147483648", "1e3"})
 			rq.RespFor, rq.Resp = lib+"SearchBooks", hx(dynMsg("vanguard.test.v1.SearchBooksResponse", func(m *dynamicpb.Message, f func(string) protoreflect.FieldDescriptor) {
 				m.Set(f("next_page_token"), protoreflect.ValueOfString("tok"))
 			}))
@@ -618,6 +759,13 @@ func streamSchema(e *Emitter, rng *rand.Rand, tier string) {
 		e.Class("schema:" + strings.Split(strings.TrimPrefix(rq.RespFor, "/"), "/")[1])
 		raw, _ := json.Marshal(rq)
 		e.Emit("schema_req " + hex.EncodeToString(raw))
+		if rq.ErrBody == "" && rng.IntN(3) == 0 && strings.HasPrefix(rq.RespFor, lib) {
+			rq2 := *rq
+			rq2.GRPCMode = pick(rng, []string{"ok", "ok-uncompressed-frame", "trailers-only-error", "error-after-message"})
+			raw2, _ := json.Marshal(&rq2)
+			e.Class("schema:rest-client-grpc-backend " + rq2.GRPCMode)
+			e.Emit("schema_rest_grpc " + hex.EncodeToString(raw2))
+		}
 	}
 	_ = sort.Strings
 }
